@@ -59,6 +59,26 @@ type Contract struct {
 	Split     *SplitSpec
 	Ats       []*AtClause
 	Assumes   []Clause
+	Small     []SmallHint
+	Returns   []ReturnsClause
+	retEnsures []int // indices of ensures clauses generated from returns clauses
+}
+
+// ReturnsClause: "returns rK := E when C" — proved as the postcondition
+// C ==> rK == E; at call sites the result is *defined* as ite(C, E, fresh),
+// so equal arguments give syntactically equal results once the caller's path
+// condition has decided C.
+type ReturnsClause struct {
+	Result string
+	Val    Clause
+	When   *Clause
+}
+
+// SmallHint: result (by name r0, r1, ...) takes few values; used to read
+// memory by cases at call sites. A hint only: never affects soundness.
+type SmallHint struct {
+	Result string
+	Lo, Hi int64
 }
 
 // AtClause: an intermediate assertion or rewrite attached to a program point
@@ -120,7 +140,7 @@ type ContractSet struct {
 
 var keywords = map[string]bool{"spec": true, "global": true, "func": true, "assume": true, "props": true, "requires": true,
 	"ensures": true, "modifies": true, "inline": true, "loop": true, "lemma": true, "panics": true, "trusted": true,
-	"nosafety": true, "pure": true, "uf": true, "specname": true, "split": true, "at": true, "assumes": true, "replay": true, "remainder": true, "sweep": true, "bound": true}
+	"nosafety": true, "pure": true, "uf": true, "specname": true, "split": true, "at": true, "assumes": true, "small": true, "returns": true, "replay": true, "remainder": true, "sweep": true, "bound": true}
 
 var labelRe = regexp.MustCompile(`^\[([A-Za-z0-9_.\-]+)\]\s*`)
 
@@ -305,6 +325,50 @@ func parseContractFile(path string, cs *ContractSet) error {
 						cur.Modifies = append(cur.Modifies, c)
 					}
 				}
+			case "returns":
+				j := strings.Index(rest, ":=")
+				if j < 0 {
+					return fmt.Errorf("%s:%d: returns rK := expr [when cond]", path, l.line)
+				}
+				rc := ReturnsClause{Result: strings.TrimSpace(rest[:j])}
+				body := strings.TrimSpace(rest[j+2:])
+				if k := strings.LastIndex(body, " when "); k >= 0 {
+					wc, err := mkClause(strings.TrimSpace(body[k+6:]), l.line)
+					if err != nil {
+						return err
+					}
+					rc.When = &wc
+					body = strings.TrimSpace(body[:k])
+				}
+				vc, err := mkClause(body, l.line)
+				if err != nil {
+					return err
+				}
+				rc.Val = vc
+				cur.Returns = append(cur.Returns, rc)
+				// the proof obligation for the function itself
+				txt := rc.Result + " == (" + body + ")"
+				if rc.When != nil {
+					txt = "(" + rc.When.Text + ") ==> " + txt
+				}
+				ec, err := mkClause(txt, l.line)
+				if err != nil {
+					return err
+				}
+				ec.Label = "returns." + rc.Result
+				cur.Ensures = append(cur.Ensures, ec)
+				cur.retEnsures = append(cur.retEnsures, len(cur.Ensures)-1)
+			case "small":
+				fs := strings.Fields(rest)
+				if len(fs) != 3 {
+					return fmt.Errorf("%s:%d: small <result> <lo> <hi>", path, l.line)
+				}
+				lo, err1 := strconv.ParseInt(fs[1], 0, 64)
+				hi, err2 := strconv.ParseInt(fs[2], 0, 64)
+				if err1 != nil || err2 != nil || hi < lo || hi-lo > 32 {
+					return fmt.Errorf("%s:%d: bad small range", path, l.line)
+				}
+				cur.Small = append(cur.Small, SmallHint{fs[0], lo, hi})
 			case "specname":
 				cur.SpecName = rest
 			case "split":
